@@ -192,3 +192,45 @@ func (b *bufWrites) staleReads(fn *ssa.Function, root ssa.Value) (clobbers []ssa
 	}
 	return clobbers, stale
 }
+
+// DebugStale lists, for every library function, getter reads of a slice parameter (or of a view converted from one)
+// that are reachable from a call that may write the same buffer.
+func DebugStale(c *Ctx) {
+	bw := newBufWrites(c)
+	for _, fn := range c.P.LibFunctions() {
+		if fn.Blocks == nil {
+			continue
+		}
+		var roots []ssa.Value
+		for _, p := range fn.Params {
+			if _, ok := p.Type().Underlying().(*types.Slice); ok {
+				roots = append(roots, p)
+			}
+		}
+		core.EachInstr(fn, func(i ssa.Instruction) {
+			switch t := i.(type) {
+			case *ssa.ChangeType:
+				if _, ok := t.Type().Underlying().(*types.Slice); ok {
+					roots = append(roots, t)
+				}
+			case *ssa.Call:
+				if _, ok := t.Type().Underlying().(*types.Slice); ok {
+					if nt, ok := t.Type().(*types.Named); ok && nt.Obj().Pkg() != nil && nt.Obj().Pkg().Path() == core.ModPath {
+						roots = append(roots, t)
+					}
+				}
+			}
+		})
+		for _, root := range roots {
+			_, stale := bw.staleReads(fn, root)
+			seen := map[string]bool{}
+			for _, p := range stale {
+				k := core.FuncName(fn) + ": " + shortCallee(p[1].(ssa.CallInstruction)) + " at " + c.P.Pos(core.PosOf(p[1])) + " after " + shortCallee(p[0].(ssa.CallInstruction)) + " at " + c.P.Pos(core.PosOf(p[0]))
+				if !seen[k] {
+					seen[k] = true
+					println(k)
+				}
+			}
+		}
+	}
+}
